@@ -348,6 +348,8 @@ def plugin_tables(example_dir=None):
                     from midgard.parsers._parser import Parser
                     if inspect.isclass(obj):
                         row["kind"] = 1 if (issubclass(obj, Parser) and obj is not Parser and in_module) else 0
+                        from midgard.parsers import ChainParser, LineParser, RinexParser, SinexParser
+                        row["base"] = next((b.__name__ for b in (SinexParser, RinexParser, LineParser, ChainParser) if issubclass(obj, b)), "Parser")
                     elif inspect.isfunction(obj) and in_module and example_dir:
                         # a dispatcher: must hand back a Parser for some RINEX example file
                         for f in sorted(os.listdir(example_dir)):
